@@ -274,7 +274,13 @@ func (w *writerA) rsv1(rule string) {
 			continue
 		}
 		if !constant.BoolVal(k.Value) {
-			r.Check(rule, shortFn(fn), "clear-compress", st.Pos(), fn == w.flush, "compress may be cleared only by flushFrame")
+			onlyFlush := true
+			for _, h := range c.hostsOf(fn) { // a helper extracted from flushFrame clears it on flushFrame's behalf
+				if h != w.flush {
+					onlyFlush = false
+				}
+			}
+			r.Check(rule, shortFn(fn), "clear-compress", st.Pos(), onlyFlush, "compress may be cleared only by flushFrame")
 			continue
 		}
 		ok, why := true, "compress = true only with a negotiated, enabled, data message whose writer is the compressing wrapper"
@@ -431,7 +437,7 @@ func (w *writerA) maskImpl(rule string) {
 				if z, isC := a.Args[1].Int64(); !isC || z != 0 {
 					room = x.Bin(token.SUB, room, x.StripWiden(a.Args[1]), types.Typ[types.Int])
 				}
-				if !knowsGe(p, ev.NLits, W, is(room)) {
+				if !knowsGe(p, ev.NLits, W, is(room)) && !x.ProveLeq(x.T.Int(W), room) {
 					ok, why = false, fmt.Sprintf("the word store at &b[k] is not guarded by len(b)-k >= %d", W)
 				}
 				if pt, isP := ev.Addr.Type.Underlying().(*types.Pointer); !isP || c.P.Pkg.TypesSizes.Sizeof(pt.Elem()) != W {
